@@ -43,6 +43,7 @@
 /* #include "alignment.h" */
 #include "pick_anchor.h"
 #include "esl_stopwatch.h"
+#include "kalign_verif.h"
 
 struct node{
         struct node* left;
@@ -669,6 +670,7 @@ ERROR:
 
 int split2(const float * const * dm,const int* samples, const int num_anchors,const int num_samples,const int seed_pick,struct kmeans_result** ret)
 {
+        KV_EVENT(KV_SPLIT_BEGIN,seed_pick,num_samples,0,samples,NULL);
         struct kmeans_result* res = NULL;
         int* sl = NULL;
         int* sr = NULL;
@@ -760,6 +762,7 @@ int split2(const float * const * dm,const int* samples, const int num_anchors,co
 
         w = NULL;
         for(int stop = 0; stop < 500; stop++){
+                KV_EVENT(KV_SPLIT_ITER,seed_pick,num_samples,stop,samples,NULL);
                 num_l = 0;
                 num_r = 0;
 
@@ -869,6 +872,7 @@ int split2(const float * const * dm,const int* samples, const int num_anchors,co
         res->nr =  num_r;
         res->score = score;
         *ret = res;
+        KV_EVENT(KV_SPLIT_END,seed_pick,num_samples,0,samples,NULL);
         return OK;
 ERROR:
         return FAIL;
